@@ -110,6 +110,13 @@ impl<'a, 'tcx> W<'a, 'tcx> {
                     _ => {}
                 }
             }
+            hir::ExprKind::Tup(elems) => {
+                let mut v = Vec::new();
+                for el in elems.iter() {
+                    v.push(self.arg_desc(el));
+                }
+                o.put("tuple", J::Arr(v));
+            }
             hir::ExprKind::Field(base, ident) => {
                 o.put("field", J::s(ident.name.to_string()));
                 if let hir::ExprKind::Path(ref qp) = base.kind {
